@@ -106,6 +106,7 @@ def In.addExts (i : In) (exts : List (List String)) : In :=
     match e with
     | ["dur", s, "=", r] => { i with durs := (dec s, r.toNat?) :: i.durs }
     | ["yaml", s, "=", t] => { i with yamls := (dec s, tagOf t) :: i.yamls }
+    | ["yaml", s, "=", "strx", t] => { i with yamls := (dec s, .diff (dec t)) :: i.yamls }
     | _ => i) i
 
 def putData (d : Data) (key : String) (v : V1) : Data :=
@@ -378,6 +379,7 @@ def cfgMon (m : MSt) (op : List String) (exts : List (List String)) (obs : Optio
     -- the assumption the repaired `yamlf` rests on (`coreSchema`), checked on every string of the case
     let bad := exts.filterMap fun e => match e with
       | ["yaml", s, "=", t] => if isPlainFixed (dec s) && t != "str" then some (dec s) else none
+      | ["yaml", s, "=", "strx", _] => if isPlainFixed (dec s) then some (dec s) else none
       | _ => none
     ({ m with inp := i }, bad.map fun s =>
       fail "C38:assumption:yaml-core-schema" s!"yaml.v3 reads the bare word {s} as a non-string although it is letters+digits and not a reserved word")
